@@ -408,7 +408,17 @@ class CSSPageRule(cssrule.CSSRuleRules):
                          "a :class:`~css_parser.css.CSSStyleDeclaration`.")
 
     def insertRule(self, rule, index=None):
-        """Implements base ``insertRule``."""
+        """Implements base ``insertRule``. An @page rule holds margin rules
+        only, each margin once (as its parser reads them)."""
+        if isinstance(rule, string_type):
+            # a style sheet keeps no margin rule: parse the text as one
+            text, rule = rule, MarginRule()
+            rule.cssText = text
+            if not rule.wellformed:
+                self._log.error('%s: Invalid Rule: %s'
+                                % (self.__class__.__name__, text))
+                return
+
         rule, index = self._prepareInsertRule(rule, index)
 
         if rule is False or rule is True:
@@ -416,16 +426,20 @@ class CSSPageRule(cssrule.CSSRuleRules):
             return
 
         # check hierarchy
-        if isinstance(rule, css_parser.css.CSSCharsetRule) or \
-           isinstance(rule, css_parser.css.CSSFontFaceRule) or \
-           isinstance(rule, css_parser.css.CSSImportRule) or \
-           isinstance(rule, css_parser.css.CSSNamespaceRule) or \
-           isinstance(rule, CSSPageRule) or \
-           isinstance(rule, css_parser.css.CSSMediaRule):
+        if not isinstance(rule, MarginRule):
             self._log.error('%s: This type of rule is not allowed here: %s'
                             % (self.__class__.__name__, rule.cssText),
                             error=xml.dom.HierarchyRequestErr)
             return
+
+        # merge if margin set more than once
+        for i, r in enumerate(self._cssRules):
+            if r.margin == rule.margin:
+                for p in rule.style:
+                    # copy: a Property object lives in one declaration
+                    r.style.setProperty(p.name, p.value, p.priority,
+                                        replace=False)
+                return i
 
         return self._finishInsertRule(rule, index)
 
